@@ -31,6 +31,11 @@ class Check(EngineCheck):
                 "LLBuild.Refine.EngineImpl_sound_C06_same_executed_set", "LLBuild.Refine.EngineImpl_sound_C06_same_executed_set_nofail",
                 "LLBuild.Refine.EngineImpl_sound_C06_executed_reference", "LLBuild.Refine.EngineImpl_sound_C06_in_order",
                 "LLBuild.Refine.monitor_accepts_out_of_order",
+                # the documented task protocol, clause by clause, on tokens of one printed trace (Props/EngineImplSched5.lean)
+                "LLBuild.Refine.EngineImpl_sound_C06_task_protocol", "LLBuild.Refine.EngineImpl_sound_C06_values_delivered_are_clean",
+                "LLBuild.Refine.EngineImpl_sound_C06_protocol_start", "LLBuild.Refine.EngineImpl_sound_C06_protocol_prior",
+                "LLBuild.Refine.EngineImpl_sound_C06_protocol_provide", "LLBuild.Refine.EngineImpl_sound_C06_protocol_inputs_available",
+                "LLBuild.Refine.EngineImpl_sound_C06_protocol_complete", "LLBuild.Refine.EngineImpl_sound_C06_protocol_completes",
                 "LLBuild.Refine.EngineImpl_sound_C05_quiescent_async", "LLBuild.Refine.EngineImpl_async_nil"]
     mix = [(0.45, {}), (0.35, {"threads": True}), (0.2, {"foreign_cancel": True})]
     budget = (300, 3000)
